@@ -155,7 +155,7 @@ KINDS = ("acquire", "try", "release", "release_stale", "acquire_evt", "release_e
 def gen_lock(rng):
     lease = rng.choice([0.2, 0.5, 1.0, 3.0])
     clients = rng.randint(2, 5)
-    locks = rng.choice([1, 1, 2])
+    locks = rng.choice([1, 2, 2, 3])
     m = rng.randint(6, 30)
     span = lease * rng.choice([1.5, 4, 10])
     ops = []
@@ -183,8 +183,9 @@ def run_lock(sc):
     my_tokens = {}             # (client, lock) -> tokens this client was granted (in order)
     pending = []               # [future, client, lock name, via, seen]
     pr = {"lock_expired": 0, "lock_waiter_woken": 0, "lock_reentrant": 0, "lock_stale_release_refused": 0,
-          "lock_rejected_queue_full": 0, "lock_event_api_grant": 0}
+          "lock_rejected_queue_full": 0, "lock_event_api_grant": 0, "lock_grants_interleaved_across_names": 0}
     grants = [0]
+    last_any = []              # [(token, lock name, holder)] of the manager's latest grant
     viol = []
 
     def drain():
@@ -207,7 +208,8 @@ def run_lock(sc):
             current[ln] = cur
             if holder is None:
                 continue
-            # a change to a (holder, token) pair with a holder is a new grant
+            # a change to a (holder, token) pair with a holder is a new grant; the statement speaks of the manager's
+            # grants ("fencing tokens strictly increase across grants"), so the sequence is judged manager-wide
             grants[0] += 1
             hi = last_grant_token.get(ln)
             if hi is not None and token <= hi:
@@ -216,6 +218,13 @@ def run_lock(sc):
                                 f"lock {ln}: grant to {holder} carries fencing token {token}; an earlier grant of this lock "
                                 f"carried {hi} ({where})")
             last_grant_token[ln] = token
+            if last_any and token <= last_any[0][0]:
+                raise Violation("C12/fencing-tokens-increase/DistributedLock/manager-wide-order",
+                                f"grant of {ln} to {holder} carries fencing token {token}, but the manager's previous grant "
+                                f"({last_any[0][1]} to {last_any[0][2]}) carried {last_any[0][0]} ({where})")
+            if last_any and last_any[0][1] != ln:
+                pr["lock_grants_interleaved_across_names"] = 1
+            last_any[:] = [(token, ln, holder)]
 
     def check_grant_obj(g, client, ln, via):
         cname = f"c{client}"
